@@ -74,8 +74,19 @@ def len_expr(t):
     return ("other", str(t)[:80])
 
 
+def _with_helpers(F, fn):
+    """the codec function with its small private helpers spliced in (`self.write_padded_str(s)`): the tables are read
+    from what the function does, not from how it is cut into methods.  The reader's primitive `read_*` routines are
+    the vocabulary of the decode table and stay calls."""
+    from .inline import inlined
+    return inlined(F, fn, depth=2, max_blocks=60,
+                   pred=lambda g_, t_: g_.id.startswith(("gds21::write::", "gds21::read::")) and g_.kind != "Closure" and g_.id != fn.id
+                   and not re.search(r"::(read_\w+|fill_buf|encode_\w+|write_record\w*|next|peek|fail|invalid)$", g_.short))
+
+
 def writer_header_table(F, fn):
     """variant -> dict(rtype, dtype, len, checked) from the function that writes the 4 header bytes"""
+    fn = _with_helpers(F, fn)
     w = Walker(fn, follow_errors=False)
     table = {}
     rec_enum = REC
@@ -128,6 +139,7 @@ def writer_header_table(F, fn):
 
 def writer_content_table(F, fn):
     """variant -> list of write events [(prim, endian args, field chain of the value, via_encode, in_loop, conditional)]"""
+    fn = _with_helpers(F, fn)
     w = Walker(fn, follow_errors=False, max_visits=2)
     b = w.b
     loops = b.loops()
